@@ -44,3 +44,13 @@ Fixpoint bad_ids {A} (f : A -> bool) (l : list (N * A)) : list N :=
   | [] => []
   | (i, x) :: r => if f x then bad_ids f r else i :: bad_ids f r
   end.
+
+(** what a case file prints: the number of failures, then the first 40 failing ids *)
+Definition report (l : list N) : list N := N.of_nat (List.length l) :: firstn 40 l.
+
+(** strings with non-printable bytes are shipped as byte lists *)
+Fixpoint bs (l : list N) : string :=
+  match l with
+  | [] => EmptyString
+  | b :: r => String (ascii_of_N b) (bs r)
+  end.
